@@ -106,7 +106,7 @@ func TestVerifBounded_C06_FullStateExchangeAlone(t *testing.T) {
 			for i := 1; i < nodes; i++ {
 				ok := false
 				var vi interface{}
-				for w := 0; w < 100 && !ok; w++ {
+				for w := 0; w < 3000 && !ok; w++ {
 					vi, _ = cls[i].Get(ctx, "ring")
 					ok = view(vi) == view(v0)
 					if !ok {
